@@ -5,6 +5,7 @@ use super::*;
 use crate::model::*;
 use crate::spec::*;
 use crate::sys::*;
+use pvcore::refcodec::{Prop, SPacket, P_AUTH_METHOD, P_REASON_STRING, P_SERVER_REFERENCE};
 
 pub fn check(tier: Tier) -> Check {
     let mut parts = vec![];
@@ -35,6 +36,8 @@ pub fn check(tier: Tier) -> Check {
     parts.push(Part::new("C14/streams", json!({"depth": tier.pick(5, 6)}), tier.pick(1, 2), tier.pick(40, 400)));
     // a long backlog (127 .. 1025 unread messages) in a stream that is only read after the drop
     parts.push(Part::new("C14/backlog", json!({}), 0, 60));
+    // requests made before a connection attempt that is refused; then the Context is dropped
+    parts.push(Part::new("C14/refused", json!({}), 0, 60));
     // value flavour (DESIGN 4): the same exploration with requests / inbound messages of unusual content
     parts.push(Part::new("C14/drop", json!({"depth": tier.pick(4, 5), "r": 1, "vals": 1}), 1, tier.pick(40, 600)));
     parts.push(Part::new("C14/streams", json!({"depth": tier.pick(4, 5), "vals": 1}), tier.pick(0, 1), tier.pick(40, 400)));
@@ -126,7 +129,72 @@ fn backlog(name: String, params: Value) -> Scenario {
     })
 }
 
+/// Requests made before connect(); the connection attempt is refused (every refusing reason, with and
+/// without Server Reference / Reason String), fails, or is answered by an AUTH challenge; the Context is
+/// dropped (or connected again first, to be refused again). Until the drop the requests stay pending -
+/// nothing has happened that completes them -, afterwards every one of them ends with ContextExited.
+fn refused(name: String, params: Value) -> Scenario {
+    Box::new(move |chz, ex| {
+        let reasons: [u8; 22] = [0x80, 0x81, 0x82, 0x83, 0x84, 0x85, 0x86, 0x87, 0x88, 0x89, 0x8a, 0x8c, 0x90, 0x95, 0x97, 0x99, 0x9a, 0x9b, 0x9c, 0x9d, 0x9f, 0x00];
+        let reason = reasons[chz.choose(reasons.len())];
+        let rich = chz.choose(2) == 1;
+        let how = chz.choose(3);
+        let mut sys = Sys::new("C14", &name, chz);
+        sys.params = params.clone();
+        sys.m.check_client_acks = false;
+        sys.auto_exit = false;
+        let specs = [
+            OpSpec::Publish(PublishSpec::simple(0, "t/early", b"e0")),
+            OpSpec::Publish(PublishSpec::simple(1, "t/early", b"e1")),
+            OpSpec::Publish(PublishSpec::simple(2, "t/early", b"e2")),
+            OpSpec::Subscribe(SubscribeSpec::simple("s/early")),
+            OpSpec::Unsubscribe(UnsubscribeSpec::simple("s/early")),
+            OpSpec::Ping,
+            OpSpec::Disconnect(DisconnectSpec::default()),
+        ];
+        for sp in specs.iter() {
+            sys.apply(Ev::Start(sp.clone()));
+        }
+        let props = if rich {
+            vec![Prop::str(P_REASON_STRING, "go elsewhere"), Prop::str(P_SERVER_REFERENCE, "other.example:1883"), Prop::user("k", "v")]
+        } else {
+            vec![]
+        };
+        let attempts = if how == 2 { 2 } else { 1 };
+        for a in 0..attempts {
+            if sys.dead {
+                break;
+            }
+            if a > 0 {
+                sys.events.push("Reconnect".into());
+                sys.w.new_wire();
+                sys.m.new_wire();
+            }
+            if reason == 0 {
+                // (an AUTH challenge instead of a CONNACK: connect() returns, nothing is served yet)
+                sys.connect_with(
+                    ConnectSpec { auth_method: Some("m".into()), ..Default::default() },
+                    SPacket::Auth { reason: 0x18, props: vec![Prop::str(P_AUTH_METHOD, "m")], form: 2 },
+                );
+            } else {
+                sys.connect_with(ConnectSpec::default(), SPacket::Connack { session_present: false, reason, props: props.clone() });
+            }
+        }
+        if how == 1 && !sys.dead {
+            // one more request after the refusal
+            sys.apply(Ev::Start(OpSpec::Publish(PublishSpec::simple(1, "t/late", b"l1"))));
+        }
+        sys.apply(Ev::DropCtx);
+        sys.apply(Ev::Start(OpSpec::Ping));
+        sys.finish();
+        sys.report(ex, &["context-exited-delivered"]);
+    })
+}
+
 pub fn scenario(name: &str, params: &Value) -> Scenario {
+    if name == "C14/refused" {
+        return refused(name.to_string(), params.clone());
+    }
     if name == "C14/backlog" {
         return backlog(name.to_string(), params.clone());
     }
